@@ -38,7 +38,15 @@ RULE = ("roundtrip_local: LagrangeGrid (boundary) / BSplineGrid (boundary on sub
         "Every clause is asserted after every round; a violation that appears only after earlier rounds (a fresh grid "
         "object passes the same configuration) gets the signature suffix /only-after-earlier-rounds-on-the-same-grid-object. polynomials: the same two grid kinds with boundary (and B-spline modified for constants), a vector of "
         "monomials in the box-centred variable up to the demanded degree, evaluated at random points of the box. "
-        "interpolate_grid: the tensor-grid interpolation API of both grid kinds. basis: one basis object (six classes), "
+        "interpolate_grid: the tensor-grid interpolation API of both grid kinds. interleaved: 2-3 live grid objects of one kind "
+        "(global 3/4, local 1/4) with independently drawn family, p, boundary mode, domain, tree / area and output length, "
+        "three quarters of the cases with the same level vector (the key of the surplus store; local: the same area and "
+        "levels) on several of them; every object has a program integrate, 1-2 reads out of interpolate / interpolate_grid / "
+        "get_surplusses (+ a second integrate and read in a quarter); the programs are merged in a drawn order (half of "
+        "them: all first integrates, then the rest). Every result is checked with the round-trip clauses and must equal "
+        "bit for bit the result of the same program run on a fresh object used alone; signatures that only appear "
+        "interleaved end in /only-when-interleaved-with-another-grid-object. Non-trivial (interleaved) = two objects share "
+        "the key and some read follows an integrate of another object with that key. basis: one basis object (six classes), "
         "knots uniform / random increments / as the grids build them, cardinality, derivatives at random points inside "
         "the knot intervals, integrals. Non-trivial: round trips/interpolate_grid/polynomials = at least two hierarchical "
         "levels present in some dimension and (d >= 2 or some dimension has >= 15 points) and the case was not skipped "
